@@ -2,7 +2,7 @@
     source message it descends from and the output index taken at every stage so far (the
     harness carries both in the metadata of the real messages).  The handler of stage s
     returns [fan s lineage] outputs; output j of (l, p) is (l, p ++ [j]). *)
-From WM Require Import Base.Prelude Message.Model Handler.RouterHandle Pipeline.Model.
+From WM Require Import Base.Prelude Message.Model Handler.RouterHandle Pipeline.Model Pipeline.ImmModel.
 
 Definition cm := (N * list N)%type.
 Definition cm_eqb (a b : cm) : bool := N.eqb (fst a) (fst b) && list_eqb N.eqb (snd a) (snd b).
@@ -13,8 +13,11 @@ Definition cfan (fans : list (list nat)) (s : nat) (l : N) : nat :=
   | [] => 1
   | row => nth (N.to_nat l mod length row) row 1
   end.
+(** fan-out 9 marks a PASSTHROUGH handler: it returns the consumed message object itself *)
 Definition chf (fans : list (list nat)) (s : nat) (m : cm) : list cm :=
-  map (fun j => (fst m, snd m ++ [N.of_nat j])) (seq 0 (cfan fans s (fst m))).
+  let n := cfan fans s (fst m) in
+  if Nat.eqb n 9 then [m]
+  else map (fun j => (fst m, snd m ++ [N.of_nat j])) (seq 0 n).
 
 Record c01_case := C01 {
   q_k : nat;
@@ -55,7 +58,7 @@ Fixpoint bag_eqb (a b : list cm) : bool :=
   end.
 
 Definition c01_model (c : c01_case) : option (pstate cm) :=
-  preplay (chf (q_fans c)) cm_eqb rt_handle (q_k c) (sc_of (q_script c)) (pinit (q_srcs c))
+  preplay_imm (chf (q_fans c)) cm_eqb rt_handle (q_k c) (sc_of (q_script c)) (pinit (q_srcs c))
           (map (fun d => (d_stage d, d_msg d)) (q_log c)).
 
 (** 0 = agrees; 1 = an observed delivery is not enabled in the model; 2 = the logs differ;
@@ -82,11 +85,15 @@ Definition c01_lost (c : c01_case) : bool :=
 Definition c01_not_redelivered (c : c01_case) : bool :=
   q_quiet c && negb (redelivery_ok cm_eqb (q_log c)).
 
+(** the redelivery after a Nack was not immediate: another message reached the stage in between *)
+Definition c01_not_immediate (c : c01_case) : bool := negb (immediate_ok cm_eqb (q_log c)).
+
 Definition c01_mismatches (cs : list c01_case) : list (nat * nat) :=
   filter (fun p => negb (Nat.eqb (snd p) 0)) (combine (seq 0 (length cs)) (map c01_mismatch cs)).
 Definition c01_log_violations (cs : list c01_case) : list nat := positions (map c01_log_bad cs).
 Definition c01_invented_violations (cs : list c01_case) : list nat := positions (map c01_invented cs).
 Definition c01_lost_violations (cs : list c01_case) : list nat := positions (map c01_lost cs).
+Definition c01_immediate_violations (cs : list c01_case) : list nat := positions (map c01_not_immediate cs).
 Definition c01_redelivery_violations (cs : list c01_case) : list nat := positions (map c01_not_redelivered cs).
 (** first logged delivery the monitor rejects (for the report) *)
 Definition c01_first_bad (c : c01_case) : list nat :=
